@@ -14,7 +14,11 @@ double verif_inst(std::vector<double>& v, std::vector<double>& w, double x, std:
   s += VectorTools::logSumExp(v, w) + VectorTools::sumExp(v, w) + VectorTools::scalar<double, double>(v, w) + VectorTools::mean<double, double>(v);
   s += (double)(VectorTools::whichMax(v) + VectorTools::whichMin(v) + VectorTools::which(v, x) + VectorTools::contains(v, x));
   r = VectorTools::cumProd(v); r = VectorTools::range(v);
+  std::vector<size_t> pos = VectorTools::whichAll(v, x); pos = VectorTools::whichMaxAll(v); pos = VectorTools::whichMinAll(v);
+  r = VectorTools::rep(v, pos.size()); r = VectorTools::vectorIntersection(v, w);
+  s += (double)VectorTools::containsAll(v, w); VectorTools::diff(v, w, r); VectorTools::append(v, w);
   int si = VectorTools::sum(vi) + VectorTools::prod(vi) + VectorTools::sumProd(vi, wi) + VectorTools::max(vi) + VectorTools::min(vi) + VectorTools::scalar<int, int>(vi, wi);
+  std::vector<size_t> posi = VectorTools::whichAll(vi, xi); posi = VectorTools::whichMaxAll(vi); posi = VectorTools::whichMinAll(vi); si += VectorTools::min(vi) + (int)VectorTools::whichMin(vi);
   ri = VectorTools::cumProd(vi); si += (int)VectorTools::whichMax(vi) + (int)VectorTools::which(vi, xi);
   return s + si + NumTools::logsum(x, s);
 }
@@ -26,8 +30,11 @@ TUS = {'vt': dict(src=INST, filter='bpp::VectorTools'),
 VD = 'std::vector<double>'
 VI = 'std::vector<int>'
 OPS = {'+': 'plus', '-': 'minus', '*': 'mul', '/': 'div'}
-free = {('exp', 1): 'verif_exp', ('log', 1): 'verif_log_ax', ('isinf', 1): 'verif_isinf', ('sort', 2): 'verif_sort_pvalue',
+free = {('exp', 1): 'verif_exp', ('log', 1): 'verif_log_ax', ('isinf', 1): 'verif_isinf', ('sort', 2): [('PValue', 'verif_sort_pvalue'), ('double', 'verif_sort_double')], ('append', 2): 'verif_append_double', ('contains', 2): 'VectorTools__contains',
         ('max',): [('double (const std::vector<double> &)', 'VectorTools__max'), ('int (const std::vector<int> &)', 'VectorTools__max_i')],
+        ('min',): [('double (const std::vector<double> &)', 'VectorTools__min'), ('int (const std::vector<int> &)', 'VectorTools__min_i')],
+        ('whichMax',): [('(const std::vector<double> &)', 'VectorTools__whichMax'), ('(const std::vector<int> &)', 'VectorTools__whichMax_i')],
+        ('whichMin',): [('(const std::vector<double> &)', 'VectorTools__whichMin'), ('(const std::vector<int> &)', 'VectorTools__whichMin_i')],
         ('sum',): [('double (const std::vector<double> &)', 'VectorTools__sum'), ('int (const std::vector<int> &)', 'VectorTools__sum_i')]}
 CFG = dict(types={}, plain=set(), rename={}, free=free, throws=set(),
            # double * and / are uninterpreted functions in this unit (values of real-valued products are not decided here; the
@@ -69,10 +76,21 @@ static inline void verif_sort_pvalue(StatTools_PValue *first, StatTools_PValue *
     for (long k = 0; k < VEC_BCAP; ++k) { if (!(j > 0 && StatTools_PValue__op_lt(&x, &first[j - 1]))) break; first[j] = first[j - 1]; --j; }
     first[j] = x; } }
 #endif
+#ifndef VERIF_MODE_BOUNDED
+/* std::sort on a vector<double>: permutes the elements in place (contents unspecified afterwards: an over-approximation that is enough for index safety) */
+void verif_sort_double(double *first, double *last)
+  __CPROVER_requires(__CPROVER_same_object(first, last))
+  __CPROVER_assigns(__CPROVER_object_whole(first));
+/* vec1.insert(vec1.end(), vec2.begin(), vec2.end()) (VectorTools::append): lengths add up, storage may move */
+void verif_append_double(Vec_double *v1, const Vec_double *v2)
+  __CPROVER_requires(v1->n + v2->n <= VEC_CAP)
+  __CPROVER_ensures(v1->n == __CPROVER_old(v1->n) + v2->n && __CPROVER_is_fresh(v1->d, v1->n * sizeof(double)))
+  __CPROVER_assigns(v1->d, v1->n);
+#endif
 #define VOBJ(v) (__CPROVER_is_fresh(v, sizeof(*(v))) && VEC_FRESH(v))
 unsigned long verif_gk;   /* ghost index, universally quantified */
 '''
-STUB_CONTRACTS = {'Vec_double__ctor_1', 'Vec_int__ctor_1', 'Vec_double__push_back', 'Vec_ulong__push_back'}
+STUB_CONTRACTS = {'Vec_ulong__ctor_2', 'verif_sort_double', 'verif_append_double', 'Vec_double__ctor_copy', 'Vec_double__make_copy', 'Vec_double__resize', 'Vec_double__ctor_1', 'Vec_int__ctor_1', 'Vec_double__push_back', 'Vec_ulong__push_back'}
 
 def L(var, bound, assigns=(), inv=(), dec=None):
     a = ', '.join([var] + list(assigns))
@@ -142,6 +160,39 @@ VT('contains', 'VectorTools__contains', ['double'], requires=['VOBJ(vec)'],
    ensures=['verif_exc == 0', '__CPROVER_return_value ==> vec->n > 0', '(!__CPROVER_return_value && verif_gk < vec->n) ==> vec->d[verif_gk] != el'],
    assigns=[], harness_pre=['verif_gk = nondet_ulong();'],
    loops={1: L('verif_i1', 'verif_rng1->n', inv=['verif_gk < verif_i1 ==> vec->d[verif_gk] != el'])})
+GK = ['verif_gk = nondet_ulong();']
+VT('whichAll', 'VectorTools__whichAll', ['double'], requires=['VOBJ(v)', '__CPROVER_is_fresh(which, sizeof(double))'],
+   # every position is visited without an out-of-range access; ElementNotFoundException only when no element equals the value (ghost index)
+   ensures=['verif_exc == 0 || verif_exc == EXC_ElementNotFoundException',
+            'verif_exc == 0 ==> (__CPROVER_return_value.n >= 1 && __CPROVER_return_value.n <= v->n)',
+            '(verif_exc != 0 && verif_gk < v->n) ==> v->d[verif_gk] != *which'],
+   assigns=['verif_exc'], harness_pre=GK,
+   loops={1: L('i', 'v->n', assigns=['w.d', 'w.n'], inv=['w.n <= i', 'verif_exc == 0', '(w.n == 0 && verif_gk < i) ==> v->d[verif_gk] != *which'])})
+for nm, ext in (('whichMaxAll', 'max'), ('whichMinAll', 'min')):
+    VT(nm, 'VectorTools__' + nm, ['double'], requires=['VOBJ(v)'],
+       ensures=['(verif_exc != 0) == (v->n == 0)', 'verif_exc == 0 || ' + EMPTY, 'verif_exc == 0 ==> __CPROVER_return_value.n <= v->n'],
+       assigns=['verif_exc'], mirror=MV, cex_requires=['v->n <= 3'],
+       loops={1: L('i', 'v->n', assigns=['pos.d', 'pos.n'], inv=['pos.n <= i', 'verif_exc == 0'])})
+VT('rep', 'VectorTools__rep', ['double'], requires=['VOBJ(vec)', 'n <= VEC_CAP && vec->n * n <= VEC_CAP'],
+   # length of the repetition; the modular index never leaves the input (an empty input is never indexed)
+   ensures=['verif_exc == 0', '__CPROVER_return_value.n == vec->n * n'], assigns=[],
+   loops={1: L('i', 'v.n', assigns=['__CPROVER_object_whole(v.d)'], inv=['v.n == vec->n * n'])})
+VT('vectorIntersection', 'VectorTools__vectorIntersection', ['double'], sig='(const std::vector<double> &, const std::vector<double> &)', requires=['VOBJ(vec1)', 'VOBJ(vec2)'],
+   ensures=['verif_exc == 0', '__CPROVER_return_value.n <= vec1->n', 'vec2->n == 0 ==> __CPROVER_return_value.n == 0'], assigns=[],
+   loops={1: L('verif_i1', 'verif_rng1->n', assigns=['interEl.d', 'interEl.n'], inv=['interEl.n <= verif_i1', 'verif_exc == 0', 'vec2->n == 0 ==> interEl.n == 0'])})
+VT('containsAll', 'VectorTools__containsAll', ['double'], requires=['VOBJ(v1)', 'VOBJ(v2)'],
+   # containment of anything in an empty vector is decided without reading it; every index stays inside its (sorted) vector
+   ensures=['verif_exc == 0', 'v1->n == __CPROVER_old(v1->n) && v2->n == __CPROVER_old(v2->n)', 'v2->n == 0 ==> __CPROVER_return_value', '(v1->n == 0 && v2->n > 0) ==> !__CPROVER_return_value'],
+   assigns=['__CPROVER_object_whole(v1->d)', '__CPROVER_object_whole(v2->d)'], mirror=MIR2, cex_requires=['v1->n <= 3 && v2->n <= 3'],
+   loops={1: L('i', 'v2->n', assigns=['j'], inv=['v1->n > 0', 'j < v1->n']),
+          2: dict(assigns='j', invariant=['j < v1->n'], decreases='v1->n - j')})
+VT('diff', 'VectorTools__diff', ['double'], requires=['VOBJ(v1)', 'VOBJ(v2)', 'VOBJ(v3)', 'v1->n + v3->n <= VEC_CAP'],
+   # the difference with an empty vector never reads it; the output grows by at most the number of elements of the first operand
+   ensures=['verif_exc == 0', 'v1->n == __CPROVER_old(v1->n) && v2->n == __CPROVER_old(v2->n)', 'v3->n >= __CPROVER_old(v3->n) && v3->n <= __CPROVER_old(v3->n) + v1->n',
+            'v2->n == 0 ==> v3->n == __CPROVER_old(v3->n) + v1->n'],
+   assigns=['__CPROVER_object_whole(v1->d)', '__CPROVER_object_whole(v2->d)', 'v3->d', 'v3->n'], mirror={'v1': [('unsigned long', 'n')], 'v2': [('unsigned long', 'n')], 'v3': [('unsigned long', 'n')]}, cex_requires=['v1->n <= 3 && v2->n <= 3 && v3->n <= 3'],
+   loops={1: L('i', 'v1->n', assigns=['j', 'v3->d', 'v3->n'], inv=['v2->n > 0', 'j < v2->n', 'v3->n >= __CPROVER_loop_entry(v3->n) && v3->n <= __CPROVER_loop_entry(v3->n) + i']),
+          2: dict(assigns='j', invariant=['j < v2->n'], decreases='v2->n - j')})
 VT('mean', 'VectorTools__mean', ['double', 'double'], sig='(const std::vector<double> &)', requires=['VOBJ(v1)'], ensures=['verif_exc == 0'], assigns=[])
 for nm in ('logSumExp', 'sumExp'):
     VT(nm, 'VectorTools__' + nm + '_w', ['double'], sig='(const std::vector<double> &, const std::vector<double> &)', requires=['VOBJ(v1)', 'VOBJ(v2)'],
@@ -168,7 +219,8 @@ FUNCS += [
     dict(cname='StatTools__computeFdr', qname='bpp::StatTools::computeFdr'),
 ]
 INT = [('sum', 'VectorTools__sum_i'), ('prod', 'VectorTools__prod_i'), ('cumProd', 'VectorTools__cumProd_i'), ('sumProd', 'VectorTools__sumProd_i'),
-       ('max', 'VectorTools__max_i'), ('min', 'VectorTools__min_i'), ('whichMax', 'VectorTools__whichMax_i'), ('which', 'VectorTools__which_i')]
+       ('max', 'VectorTools__max_i'), ('min', 'VectorTools__min_i'), ('whichMax', 'VectorTools__whichMax_i'), ('which', 'VectorTools__which_i'),
+       ('whichMin', 'VectorTools__whichMin_i'), ('whichAll', 'VectorTools__whichAll_i'), ('whichMaxAll', 'VectorTools__whichMaxAll_i'), ('whichMinAll', 'VectorTools__whichMinAll_i')]
 for nm, cn in INT:
     VT(nm, cn, ['int'])
 VT('scalar', 'VectorTools__scalar_i', ['int', 'int'], sig='(const std::vector<int> &, const std::vector<int> &)')
@@ -177,7 +229,7 @@ FUNCS.append(dict(cname='op_mul_vv_i', qname='bpp::operator*', targs=['int'], si
 
 BH = r'''
 #define FOR(i, n) for (unsigned long i = 0; i < (unsigned long)(n); ++i)
-int in_a[N1 + 1], in_b[N2 + 1];
+int in_a[N1 + 1], in_b[N2 + 1], in_x;
 static void mkv(Vec_int *v, int *src, unsigned long n) { v->d = (int*)verif_new_array(VEC_BCAP, sizeof(int)); v->n = n; FOR(i, n) { src[i] = nondet_int(); __CPROVER_assume(src[i] >= -DOM && src[i] <= DOM); v->d[i] = src[i]; } }
 void h(void) { Vec_int a, b; mkv(&a, in_a, N1); mkv(&b, in_b, N2); verif_exc = 0;
   /* definitions over integers, computed by straight-line loops */
@@ -200,6 +252,26 @@ void h(void) { Vec_int a, b; mkv(&a, in_a, N1); mkv(&b, in_b, N2); verif_exc = 0
     else { _Bool isel = 0; FOR(i, N1) { __CPROVER_assert(r >= in_a[i], "max bounds every element"); isel = isel || r == in_a[i]; } __CPROVER_assert(verif_exc == 0 && isel, "max is an element"); } }
   { verif_exc = 0; unsigned long r = VectorTools__whichMax_i(&a);
     if (N1 != 0) { __CPROVER_assert(verif_exc == 0 && r < N1, "whichMax is an index"); FOR(i, N1) { __CPROVER_assert(in_a[r] >= in_a[i], "whichMax points at a maximum"); if (i < r) __CPROVER_assert(in_a[i] < in_a[r], "whichMax is the first position of the maximum"); } } }
+  /* all positions of the extrema / of a value: exactly the matching indices, in increasing order */
+  { verif_exc = 0; Vec_ulong r = VectorTools__whichMaxAll_i(&a);
+    if (N1 == 0) __CPROVER_assert(verif_exc == EXC_EmptyVectorException, "whichMaxAll of an empty vector raises EmptyVectorException");
+    else { int m = in_a[0]; FOR(i, N1) if (in_a[i] > m) m = in_a[i]; unsigned long c = 0;
+      FOR(i, N1) if (in_a[i] == m) { __CPROVER_assert(c < r.n && r.d[c] == i, "whichMaxAll lists every position of the maximum, in increasing order"); c++; }
+      __CPROVER_assert(verif_exc == 0 && r.n == c, "whichMaxAll lists only positions of the maximum"); } }
+  { verif_exc = 0; Vec_ulong r = VectorTools__whichMinAll_i(&a);
+    if (N1 == 0) __CPROVER_assert(verif_exc == EXC_EmptyVectorException, "whichMinAll of an empty vector raises EmptyVectorException");
+    else { int m = in_a[0]; FOR(i, N1) if (in_a[i] < m) m = in_a[i]; unsigned long c = 0;
+      FOR(i, N1) if (in_a[i] == m) { __CPROVER_assert(c < r.n && r.d[c] == i, "whichMinAll lists every position of the minimum, in increasing order"); c++; }
+      __CPROVER_assert(verif_exc == 0 && r.n == c, "whichMinAll lists only positions of the minimum"); } }
+  { verif_exc = 0; int x = nondet_int(); __CPROVER_assume(x >= -DOM && x <= DOM); in_x = x; Vec_ulong r = VectorTools__whichAll_i(&a, &x); unsigned long c = 0;
+    FOR(i, N1) if (in_a[i] == x) { __CPROVER_assert(verif_exc == 0 && c < r.n && r.d[c] == i, "whichAll lists every position of the value, in increasing order"); c++; }
+    if (c == 0) __CPROVER_assert(verif_exc == EXC_ElementNotFoundException, "whichAll raises ElementNotFoundException when the value is absent");
+    else __CPROVER_assert(verif_exc == 0 && r.n == c, "whichAll lists only positions of the value"); }
+  { verif_exc = 0; int r = VectorTools__min_i(&a);
+    if (N1 == 0) __CPROVER_assert(verif_exc == EXC_EmptyVectorException, "min of an empty vector raises EmptyVectorException");
+    else { _Bool isel = 0; FOR(i, N1) { __CPROVER_assert(r <= in_a[i], "min bounds every element"); isel = isel || r == in_a[i]; } __CPROVER_assert(verif_exc == 0 && isel, "min is an element"); } }
+  { verif_exc = 0; unsigned long r = VectorTools__whichMin_i(&a);
+    if (N1 != 0) { __CPROVER_assert(verif_exc == 0 && r < N1, "whichMin is an index"); FOR(i, N1) { __CPROVER_assert(in_a[r] <= in_a[i], "whichMin points at a minimum"); if (i < r) __CPROVER_assert(in_a[i] > in_a[r], "whichMin is the first position of the minimum"); } } }
   __CPROVER_assert(0, "verif_canary reachable after call"); }
 '''
 H_FDR = r'''
@@ -224,7 +296,7 @@ def generate_jobs(unit, tier):
         for n2 in sorted({n1, (n1 + 1) % (nmax + 1)}):
             jobs.append(dict(id='b_values_n%d_m%d' % (n1, n2), kind='bounded', mode='bounded', entry='h', bodies=ints, harness=BH, unwind=nmax + 3, timeout=600,
                              defs='#define N1 %d\n#define N2 %d\n#define DOM 2\n#define VEC_BCAP %d\n' % (n1, n2, nmax + 1),
-                             bound='vector lengths %d and %d, integer entries in [-2, 2]' % (n1, n2), doc='sum, prod, cumProd, sumProd, scalar, + and * element-wise, max, whichMax against their definitions'))
+                             bound='vector lengths %d and %d, integer entries in [-2, 2]' % (n1, n2), doc='sum, prod, cumProd, sumProd, scalar, + and * element-wise, max, min, whichMax, whichMin, whichMaxAll, whichMinAll, whichAll against their definitions'))
         jobs.append(dict(id='b_fdr_n%d' % n1, kind='bounded', mode='bounded', entry='h', bodies=['StatTools_PValue__ctor_2', 'StatTools_PValue__op_lt', 'StatTools__computeFdr'],
                          harness=H_FDR, unwind=nmax + 3, timeout=600, defs='#define N1 %d\n#define VEC_BCAP %d\n' % (n1, nmax + 1),
                          bound='%d distinct p-values in [0,1] (symbolic doubles)' % n1, doc='false-discovery-rate adjustment against p*n/rank'))
@@ -232,6 +304,9 @@ def generate_jobs(unit, tier):
 
 LEMMAS = []
 REPLAY = {'p_NumTools__logsum': dict(adapter='c07_misc.cpp'), 're:^b_fdr': dict(adapter='c07_misc.cpp'), 're:^p_op_': dict(adapter='c07_vec.cpp'), 're:^p_VectorTools__': dict(adapter='c07_vec.cpp')}
-TRUSTED = ['std::vector model of stubs/vec.h; exp/log as uninterpreted functions with the axioms listed in stubs/libm.h and in the unit prelude (exp >= 0, exp(x) <= 1 for x <= 0, exp(-inf) = 0, log(0) = -inf)']
-ASSUMPTIONS = ['vectors shorter than 65536 elements in the proofs (cap of the memory model; induction, no unwinding)', 'order-type postconditions assume the compared elements are not NaN']
-NOT_DECIDED = ['upper bounds max + log n of the log-domain reductions, shift-equivariance (not exact in floating point), entropy / mutual information, sd / cor accuracy, functions built on lambdas or std::accumulate (fill, logSumExp(v), sumExp(v), logMeanExp, cumSum, countValues, shannon*, mi*, breaks)']
+TRUSTED = ['std::vector model of stubs/vec.h; exp/log as uninterpreted functions with the axioms listed in stubs/libm.h and in the unit prelude (exp >= 0, exp(x) <= 1 for x <= 0, exp(-inf) = 0, log(0) = -inf)',
+           'std::sort on vector<double> in the containsAll / diff proofs: assumed contract (rewrites the vector in place, length kept, contents unspecified); VectorTools::append (range insert): assumed contract (lengths add up, storage fresh)']
+ASSUMPTIONS = ['vectors shorter than 65536 elements in the proofs (cap of the memory model; induction, no unwinding)', 'order-type postconditions assume the compared elements are not NaN',
+               'operands of containsAll / diff / vectorIntersection are distinct objects; rep: |v| * n <= 65536']
+NOT_DECIDED = ['upper bounds max + log n of the log-domain reductions, shift-equivariance (not exact in floating point), entropy / mutual information, sd / cor accuracy, functions built on lambdas or std::accumulate (fill, logSumExp(v), sumExp(v), logMeanExp, cumSum, countValues, shannon*, mi*, breaks)',
+               'vectorUnion (is_fresh rejected in loop invariants), extract (quantified precondition on the positions), value results of containsAll / diff / vectorIntersection / rep (element contents after sort / push_back / resize are not tracked in the proofs)']
